@@ -1,5 +1,6 @@
 import Lean.Data.Json
 import Mistral.Model.Engine
+import Mistral.Model.EngineX
 import Mistral.Drv.Join
 open Lean Mistral Mistral.Engine
 namespace Mistral.Drv.Engine
@@ -81,7 +82,7 @@ def handle (fn : String) (a : Json) : Option (Except String Json) :=
       let evs ← evsJ.toList.mapM eventOfJson
       -- observation after every event
       let (_, out) := evs.foldl (fun (p : World × Array Json) e =>
-        let w' := step sp p.1 e
+        let w' := stepX sp p.1 e
         (w', p.2.push (obs w'))) (init, #[])
       pure (Json.arr out)
   | _ => none
